@@ -700,12 +700,39 @@ class Inliner:
             out.extend(self.inline_stmt(s, depth))
         return out
 
+    def _expand_star_calls(self, stmts):
+        out = []
+        for s in stmts:
+            for fld in ('body', 'orelse', 'finalbody'):
+                sub = getattr(s, fld, None)
+                if isinstance(sub, list) and sub and isinstance(sub[0], ast.stmt) and not isinstance(s, (ast.FunctionDef, ast.AsyncFunctionDef, ast.ClassDef)):
+                    setattr(s, fld, self._expand_star_calls(sub))
+            if isinstance(s, ast.Try):
+                for h_ in s.handlers:
+                    h_.body = self._expand_star_calls(h_.body)
+            if isinstance(s, (ast.Assign, ast.Return, ast.Expr)) and s.value is not None:
+                for c in [x for x in ast.walk(s.value) if isinstance(x, ast.Call)]:
+                    if len(c.args) == 1 and isinstance(c.args[0], ast.Starred) and not c.keywords:
+                        h, recv = self.helper_of(c)
+                        if h is None:
+                            continue
+                        params = h.params[1:] if h.implicit_first else list(h.params)
+                        if not params or any(p_ in h.defaults for p_ in params):
+                            continue
+                        names = [f'_star{k}__i{self._instance()}' for k in range(len(params))]
+                        out.append(ast.copy_location(ast.Assign(targets=[ast.Tuple(elts=[ast.Name(id=n_, ctx=ast.Store()) for n_ in names], ctx=ast.Store())], value=c.args[0].value), s))
+                        c.args = [ast.Name(id=n_, ctx=ast.Load()) for n_ in names]
+            out.append(s)
+        return out
+
     def run(self):
         if not self.new:
             return self
         for q, f in list(alpha.functions(self.tree)):
             n0 = len(self.done)
             self.caller_ref_names = set((alpha.reference().get(self.relpath) or {}).get(q, {}).keys())
+            # `helper(*E)` with a helper of n fixed parameters is `a1, .., an = E; helper(a1, .., an)` (a different arity raises either way)
+            f.body = self._expand_star_calls(f.body)
             # statement-level inlining first (keeps the helper's temporaries), then expression substitution for what is left
             f.body = self.block(f.body) or [ast.Pass()]
             self.subst_expr_helpers(f)
